@@ -562,11 +562,17 @@ def budget(tier):
 	return {'quick': 30000, 'thorough': 250000}[tier]
 
 
+HUGE = st.sampled_from([2 ** 63 - 1, 2 ** 63, 2 ** 64 - 1, 2 ** 64 - 2, 2 ** 64 - 3, 2 ** 64 - 5, 2 ** 32, 2 ** 31])
+
+
 def expr_strategy(nmax_hint=12):
 	r = st.integers(-nmax_hint - 2, nmax_hint + 2)
+	rh = st.one_of(r, r, r, HUGE)
 	opt = st.one_of(st.none(), r)
 	return st.one_of(
 		st.builds(lambda v, a: {'t': 'int', 'v': v, 'as': a}, r, st.sampled_from(['py', 'int64', 'int32', 'uint64', 'uint16'])),
+		st.builds(lambda v, a: {'t': 'int', 'v': v, 'as': a}, HUGE, st.sampled_from(['py', 'uint64'])),
+		st.builds(lambda v, a: {'t': 'list', 'v': v, 'as': a}, st.lists(rh, min_size=1, max_size=5).filter(lambda l: all(x >= 0 for x in l)), st.sampled_from(['uint64', 'list'])),
 		st.builds(lambda a, b, c, k: {'t': 'slice', 'a': a, 'b': b, 'c': c, 'as': k}, opt, opt,
 		          st.one_of(st.none(), st.integers(-5, 5), r), st.sampled_from(['py', 'py', 'np'])),
 		st.builds(lambda v, a: {'t': 'list', 'v': v, 'as': a}, st.lists(r, max_size=8), st.sampled_from(['list', 'tuple', 'int64', 'int32', 'int16', 'uint64', 'uint8'])),
@@ -586,8 +592,8 @@ def gen_case(draw, tier):
 		        'dtype': draw(st.sampled_from(['u2', 'u2', 'u4', 'u8', 'i8'])), 'expr': draw(expr_strategy(len(lens)))}
 	if which == 'eq':
 		lens = draw(lens_st)
-		spec1 = draw(st.sampled_from([[5, 'AT'], [5, 'AC'], [6, 'AT'], [5, 'ATG']]))
-		spec2 = draw(st.sampled_from([spec1, spec1, spec1, [5, 'AT'], [5, 'AC'], [6, 'AT'], [5, 'ATG'], [5, 'at']]))
+		spec1 = draw(st.sampled_from([[5, 'AT'], [5, 'AC'], [6, 'AT'], [5, 'ATG'], [5, 'GT'], [5, 'CAT']]))
+		spec2 = draw(st.sampled_from([spec1, spec1, spec1, [5, 'AT'], [5, 'AC'], [6, 'AT'], [5, 'ATG'], [5, 'at'], [5, 'GT'], [5, 'CAT'], [5, 'TA']]))
 		change = draw(st.one_of(
 			st.builds(lambda i, j, b: {'t': 'elem', 'i': i, 'j': j, 'bump': b}, st.integers(0, 50), st.integers(0, 50), st.booleans()),
 			st.builds(lambda i: {'t': 'drop', 'i': i}, st.integers(0, 50)),
